@@ -129,6 +129,26 @@ func genMonPlans(r *Run, ts TxnSchema, nT int) []monPlan {
 				at += rng.Intn(nT - at)
 			}
 		}
+		if rng.Intn(3) == 0 {
+			// one more monitor, over tables of which at least one is covered already: the cache holds one copy
+			// of a table, so the client has to refuse it (defect D72: it did not, and the notifications of both
+			// monitors were applied on top of each other)
+			all := append([]TableSpec{}, ts.Spec.Tables...)
+			rng.Shuffle(len(all), func(i, j int) { all[i], all[j] = all[j], all[i] })
+			p := monPlan{At: at, Client: ci, Method: monitorMethods[rng.Intn(3)], Cols: map[string][]string{}}
+			for _, t := range all[:1+rng.Intn(len(all))] {
+				p.Cols[t.Name] = nil
+			}
+			for _, q := range plans {
+				if q.Client == ci && len(p.Cols) < len(all) || len(p.Cols) == 0 {
+					for t := range q.Cols {
+						p.Cols[t] = nil
+						break
+					}
+				}
+			}
+			plans = append(plans, p)
+		}
 	}
 	sort.SliceStable(plans, func(i, j int) bool { return plans[i].At < plans[j].At })
 	return plans
@@ -202,6 +222,13 @@ func c01History(r *Run, h int, ts TxnSchema, nT int, plans []monPlan, txns []Txn
 		}
 	}()
 	sh := newShadow()
+	overlapAccepted := ""
+	defer func() {
+		if fail == nil && overlapAccepted != "" {
+			fail = &c01Fail{"protocol-model", overlapAccepted, "refused (Model/Client.lean monitorAccepted)",
+				"the client accepted a monitor of a table it monitors already (no difference between cache and database was seen afterwards)", ""}
+		}
+	}()
 	for ti := 0; ti <= nT && fail == nil; ti++ {
 		// monitors due now
 		for _, p := range plans {
@@ -221,6 +248,34 @@ func c01History(r *Run, h int, ts TxnSchema, nT int, plans []monPlan, txns []Txn
 				}
 				mc = &monClient{c: c, db: cdb, cols: map[string][]string{}}
 				clients[p.Client] = mc
+			}
+			if len(mc.cols) > 0 {
+				// an additional monitor: accepted exactly when it covers none of the client's tables
+				var accepted bool
+				if err := r.Mdl.Call(map[string]interface{}{"fn": "monitorAccepted", "existing": [][]string{tablesOf(mc.cols)},
+					"tables": tablesOf(p.Cols)}, &accepted); err != nil {
+					report("protocol-model", err.Error(), "", "model driver failed", "")
+					return
+				}
+				if !accepted {
+					count("overlapping-monitor")
+					octx, ocancel := ctxT(10 * time.Second)
+					_, err := mc.c.Monitor(octx, p.monitor())
+					ocancel()
+					if err == nil {
+						// the client took it: it counts as established, and what follows shows what becomes of the cache
+						overlapAccepted = fmt.Sprintf("monitor %v over %v accepted by a client that monitors %v", p.Method, tablesOf(p.Cols), tablesOf(mc.cols))
+						for t, c := range p.Cols {
+							if old, ok := mc.cols[t]; !ok || old != nil {
+								mc.cols[t] = c
+							}
+						}
+					}
+					if !c01Compare(r, rig, clients, cs, ti, "after a monitor over tables the client monitors already", report) {
+						return
+					}
+					continue
+				}
 			}
 			done := make(chan error, 1)
 			var pp *pausePoint
